@@ -20,6 +20,9 @@ PROPS = {
             "convergence clause asserted only with spare capacity: at least one vSwitch option of the node's zone has >= 200 free addresses (the others may be exhausted or nearly so - the real vswitch.SwitchPool with its cached, possibly stale counts is used, the controller is expected to block a vSwitch the cloud refused and move on; a refused create per reconcile is a mutation request that never stops), growing an existing interface needs >= 20 free addresses on ITS vSwitch, the cloud admits as many interfaces as the node declares and no interface invisible to the controller uses up the quota; "
             "'served' excludes nothing in this mode (no drift); idle is counted as adjustPool counts it; idle primaries of interfaces that must stay (in-use siblings, trunk, rdma) are exempt from the upper bound; "
             "a fixed point = three consecutive reconciles without mutating cloud request and without change of the record's interfaces/addresses/bindings (sync timestamps and error conditions ignored); a pass may still report 'no capacity'",
+            "refusal clauses (call-time monitors, a refusal of an earlier pass only - calls of one pass may run in parallel): after the cloud refused an assign on an interface with a count-exceeded code (Ipv4/Ipv6CountExceeded, EFLO 1013) no further address request for that interface is issued before a full sync has been answered; "
+            "after the cloud refused a create / assign for lack of addresses (InvalidVSwitchId.IpNotEnough, QuotaExceeded.PrivateIpAddress) no further request is issued against that vSwitch while the controller's vSwitch cache entry is alive (cleared at the settle phase's cache expiry and on restart); "
+            "an exhausted vSwitch (0 free IPv4) refuses IPv6 assigns as well; 3 of 4 cases keep the vSwitch cache (stale positive counts, blocks) across the settle phase, 1 of 4 expire it first",
             "rollback clause: per pass, everything the controller was told and did not release is in the record it persisted; at the fixed point record == cloud for interfaces attached to the instance and their address sets "
             "(interfaces recorded as Deleting only need to stay recorded), and no interface answered by a Create call is left unattached and unrecorded; the exclusion of finding C08-sync-drops-detached-eni applies only where the full sync cannot see the detached interface (strict Describe semantics, or a kind other than Secondary, which the sync drops without looking) - under lenient semantics a leaked Secondary interface is a violation; a throttled Delete may persist for up to three calls",
             "hard-coded waits in pool.go scaled by a line-preserving source transform; LastReconcileTime guard reset, gcPeriod 0, backoff table overridden; cached vSwitch blocks are expired before the settle phase",
